@@ -315,6 +315,9 @@ pub mod spec {
     /// f32::clamp as std implements it: NaN passes through; panics unless min <= max (which excludes NaN bounds)
     pub open spec fn f_clamp(x: f32, lo: f32, hi: f32) -> f32 { if f32_lt(x, lo) { lo } else if f32_gt(x, hi) { hi } else { x } }
     pub uninterp spec fn f32_to_usize_spec(x: f32) -> usize;
+    pub uninterp spec fn f32_to_i32_spec(x: f32) -> i32;
+    #[verifier::external_body]
+    pub fn f32_to_i32(x: f32) -> (r: i32) ensures r == f32_to_i32_spec(x) { x as i32 }
     #[verifier::external_body]
     pub fn f32_to_usize(x: f32) -> (r: usize) ensures r == f32_to_usize_spec(x) { x as usize }
     #[allow(unused_imports)] use vstd::std_specs::ops::*;
